@@ -518,9 +518,11 @@ def advanced_index(pattern: str, shp_sel: tuple, maxlen: int = 4, maxstep: int =
 # Einsum
 
 _EINSUMS = [
+    # several summation indices that first appear in different operands (each needs its own reduction variable)
+    ("ij,kl->ik", 2), ("i,j->", 2), ("i,jk->k", 2),
     ("ij,jk->ik", 2), ("ij,kj->ik", 2), ("ii->i", 1), ("ij->ji", 1), ("ij->", 1), ("i,i->", 2), ("i,j->ij", 2),
     ("ij,j->i", 2), ("ijk,kj->i", 2), ("ij,ij->ij", 2), ("ij,ij,ij->i", 3), ("im,mj,km->ijk", 3), ("iij->j", 1),
-    ("ij,ji->", 2), ("i->i", 1), ("ij,jk,kl->il", 3),
+    ("ij,ji->", 2), ("i->i", 1), ("ij,jk,kl->il", 3), ("ij,jk,kl,lm->im", 4),
 ]
 
 
@@ -712,8 +714,9 @@ def jobs(tier: str, seed: int):
             # (an unbounded symbolic slice next to an index array costs 100-500 s at length 3)
             add("advanced_index", pattern=pat, shp_sel=sel, maxlen=2 if "s" in pat else 3,
                 maxstep=1 if "s" in pat else 2)
-    for spec, nops in _EINSUMS if thorough else _EINSUMS[:12]:
-        add("einsum", spec=spec, bcast=0, maxlen=3)
+    for spec, nops in _EINSUMS if thorough else _EINSUMS[:15]:
+        # (axis lengths are symbolic: four or more index letters multiply the paths -- lengths <= 2 there)
+        add("einsum", spec=spec, bcast=0, maxlen=3 if len(set(spec) - set(",->")) <= 3 else (2 if nops < 4 else 1))
     for spec, b in [("ij,jk->ik", 1), ("ij,jk->ik", 2), ("ij,jk->ik", 8), ("ij,ij->ij", 1), ("ij,ij->ij", 6),
                     ("ij,j->i", 2), ("ij,j->i", 4)]:
         add("einsum", spec=spec, bcast=b, maxlen=3)
